@@ -47,7 +47,9 @@ def run_given(ctx, unit, n_examples, seed, tier):
     from hypothesis import given, settings, HealthCheck, Phase
 
     run_case = make_runner(ctx, unit)
-    phases = [Phase.explicit, Phase.generate, Phase.target, Phase.shrink]
+    phases = [Phase.explicit, Phase.generate, Phase.target]
+    if tier != "quick" or unit.shrink_quick:
+        phases.append(Phase.shrink)
     sett = settings(max_examples=n_examples, database=None, deadline=None, derandomize=False,
                     report_multiple_bugs=False, suppress_health_check=list(HealthCheck), phases=phases)
 
@@ -64,12 +66,15 @@ def run_given(ctx, unit, n_examples, seed, tier):
 
 def run_machine(ctx, unit, n_examples, seed, tier):
     import hypothesis
-    from hypothesis import settings, HealthCheck
+    from hypothesis import settings, HealthCheck, Phase
     from hypothesis.stateful import run_state_machine_as_test
 
     Machine = unit.machine(ctx)
+    phases = [Phase.explicit, Phase.generate, Phase.target]
+    if tier != "quick" or unit.shrink_quick:
+        phases.append(Phase.shrink)
     kw = dict(max_examples=n_examples, database=None, deadline=None, derandomize=False,
-              report_multiple_bugs=False, suppress_health_check=list(HealthCheck))
+              report_multiple_bugs=False, suppress_health_check=list(HealthCheck), phases=phases)
     if unit.steps:
         kw["stateful_step_count"] = unit.steps
     run_state_machine_as_test(hypothesis.seed(seed)(Machine), settings=settings(**kw))
